@@ -93,6 +93,13 @@ NOTES.update({
  "w10-C17-m1": "missed at first: indexed images had opaque palettes; a palette whose entry for white is fully transparent (any colour underneath) added",
  "w10-C18-m3": "missed at first: every call got a fresh hints map; one application-wide read-only hints map (TRY_HARDER, result-point callback, allowed extensions) shared by the 1-D operations, with upside-down pictures so that the reversed-row attempt is taken",
 })
+NOTES.update({
+ "w11-C05-m3": "NOT decided: needs ONE decoder object shared by several goroutines (neither C05 nor C18 quantifies over that); like w10-C10-m1",
+ "w11-C10-m3": "missed at first: every writer-side trace used a fresh writer; writers are now kept per job like readers and their traces make (and may need) history",
+ "w11-C11-m2": "missed at first: the mode message was never damaged; on the reader path its own GF(16) code is now loaded with up to two (compact) / three (full range) damaged 4-bit words, with or without codeword damage",
+ "w11-C11-m3": "missed at first: the text of a result was read once; the last result of every Decoder / AztecReader instance is held with a private copy of its text and compared after the next decode on that instance (same for the long-lived decoders of C05)",
+ "w11-C18-m1": "missed at first: every task built its multi-format reader from no hints; half of them now build it from the application-wide hints map, whose format list starts with other families' formats and ends with a duplicate",
+})
 rows=[]
 for d in sorted(glob.glob('/verif/seeded/*/')):
     name=os.path.basename(d.rstrip('/'))
